@@ -289,6 +289,13 @@ func runHistoryOn(r *Run, class string, p int, ops []SetOp, mk func() psa.IClaim
 		if !o.isClear() && (e == nil) != want {
 			fails = append(fails, pending{"setter-iff-valid", fmt.Sprintf("step %d %s: setter ok=%v, validation accepts the value=%v", i, o, e == nil, want), ""})
 		}
+		if e == nil && o.isClear() {
+			// the clear operation leaves zero components and, in profile 1, no "no measurements" assertion either
+			// (theorem C11.clear_leaves_nothing)
+			if ad, ok := DescOf(c); ok && (len(ad.Sw) != 0 || (p == 1 && ad.NoSw != nil)) {
+				fails = append(fails, pending{"set-get", fmt.Sprintf("step %d %s: after the clear operation the claims-set holds %d components, no-measurements flag present=%v", i, o, len(ad.Sw), ad.NoSw != nil), ""})
+			}
+		}
 		if e == nil {
 			if _, seen := lastOK[o.Kind]; !seen {
 				order = append(order, o.Kind)
@@ -519,6 +526,7 @@ func runC11(r *Run, rng *Rng, thorough bool) {
 			runHistoryOn(r, fmt.Sprintf("ext-p%d/history", p), p, ops, mk, nil)
 		}
 	}
+	componentCopies(r, rng, map[bool]int{false: 200, true: 5000}[thorough])
 }
 
 func validHistory(r *Rng, p int) []SetOp {
